@@ -72,6 +72,7 @@ Proof.
   destruct (difference (l_entries o) (oslice (l_heads o)) l) as [newitems|] eqn:D; [|intros H; injection H as <- _; auto].
   destruct (forallb (entry_ok l) (oslice newitems)) eqn:OK; cbn [negb]; [|intros H; injection H as <- _; auto].
   assert (E : size <? 0 = true) by (apply Z.ltb_lt; lia). rewrite E.
+  fold_j_ents l newitems. rewrite (own_heads_o U l o UO Il Io Hid newitems D).
   intros H. injection H as <- _.
   exact (linv_join U l o UO Il Io Hid newitems D).
 Qed.
